@@ -61,6 +61,7 @@ time_t sim_time(time_t*);
 int   sim_swapcontext(ucontext_t*, const ucontext_t*);
 uint64_t sim_machine_time_stamp(void);
 int   sim_spin_knob(int dflt);
+void  sim_probe(const char* name);
 }
 
 namespace std {
